@@ -7,7 +7,8 @@ generator bodies counts its calls (every callback must run exactly once) and mea
 frame depth (walking f_back) in 1 of every 97 calls and in the last one.
 
 Oracle: (1) no RecursionError - neither raised to the caller nor captured into a Failure by the
-callback machinery; (2) the result arriving at the outer end is the very object injected at the
+callback machinery (at the outer end, or - when the outer end got nothing - left as the result of a
+middle link); (2) the result arriving at the outer end is the very object injected at the
 far end; (3) max probe depth for length N exceeds the depth of the same shape at length 100 by at
 most 5 frames (stack use must not grow with N); (4) the probe ran exactly the expected number of
 times.
@@ -15,6 +16,11 @@ times.
 Chain links may be instances of Deferred subclasses (trivial, overriding pause/unpause/callback via
 super(), DeferredList/gatherResults aggregates fired through their single source): the statement
 says "each Deferred", not "each instance of exactly Deferred".
+
+Paused links: the statement covers "a chain of any length in which each callback returns the next
+Deferred" whatever the state of the returned Deferred; so links are also fired while paused and
+unpaused in either direction (back to front: the returned link is already waiting on its successor;
+front to back: the returned link holds its own plain result and is still paused).
 
 Guards: chainDeferred chains are excluded (its docstring says it can exhaust the stack); user
 callbacks never fire other Deferreds themselves (that recursion would be the user's); depth is
@@ -29,7 +35,9 @@ TECHNIQUE = "runtime monitoring: frame-depth probe inside user callbacks, defaul
 RULE = ("scenario = (shape, firing order / variant, result kind, N): chain shapes {outer fired first then "
         "innermost last ('outer-first'), innermost first ('inner-first'), outermost then inner ones from the "
         "far end ('reverse'), every 7th or a random subset paused before firing / while waiting and unpaused "
-        "afterwards} x kinds "
+        "afterwards back to front, ALL links / runs of 2..400 consecutive links / every 7th fired while paused "
+        "(pause(); callback(x)) and then unpaused FRONT TO BACK, so that each callback returns a Deferred "
+        "that has a plain result but is still paused ('-fwd'; also with subclass links)} x kinds "
         "{success, failure via errbacks, mixed via addBoth alternating}, one Deferred with N callbacks each "
         "returning a fired / later-fired Deferred, inlineCallbacks generators and ensureDeferred coroutines "
         "over N pre-fired Deferreds (success / failure caught), generator with an unfired Deferred every "
@@ -48,7 +56,8 @@ ASSUMPTIONS = [
 ]
 SHARDS = {"quick": 4, "thorough": 16}
 FLOORS = {"scenarios_completed": 100, "depth_comparisons": 100, "probe_calls": 500000, "depth_samples": 1000,
-          "results_checked": 200, "subclass_link_scenarios": 80, "late_callback_scenarios": 40}
+          "results_checked": 200, "subclass_link_scenarios": 80, "late_callback_scenarios": 40,
+          "paused_fired_unpaused_forward_scenarios": 12}
 READY = True
 
 BASE_N = 100
@@ -60,6 +69,7 @@ class Probe:
         self.calls = 0
         self.max = 0
         self.samples = 0
+        self.links = ()
 
     def hit(self, force=False):
         self.calls += 1
@@ -154,11 +164,15 @@ def make_links(n, kind, links, rng):
     return ds, fire
 
 
-def chain(n, order, kind, probe, paused=None, pause_after=False, links=None, rng=None):
-    """d_i's callback (errback for failures) returns d_{i+1}; a probe callback follows it."""
+def chain(n, order, kind, probe, paused=None, pause_after=False, links=None, rng=None, unpause_fwd=False):
+    """d_i's callback (errback for failures) returns d_{i+1}; a probe callback follows it.
+
+    unpause_fwd: the paused links are unpaused front to back instead of back to front, so a link that
+    runs its callback gets a next link that HAS its own plain result but is still paused."""
     late = order.endswith("+late")
     order = order[:-5] if late else order
     ds, firefn = make_links(n, kind, links, rng)
+    probe.links = ds  # only used to NAME the mechanism when the outer end got nothing (see run_scenario)
     out = []
     late_added = [False] * n
     final = _E("final") if kind != "s" else _Val()
@@ -221,7 +235,7 @@ def chain(n, order, kind, probe, paused=None, pause_after=False, links=None, rng
             late_added[i + 1] = True
             ds[i + 1].addBoth(pb_late)
     if paused:
-        for i in sorted(paused, reverse=True):
+        for i in sorted(paused, reverse=not unpause_fwd):
             ds[i].unpause()
     return out, final, n + sum(late_added)
 
@@ -376,7 +390,18 @@ def scenarios(ctx):
                 out.append(("gen", variant, kind, n, None))
     out.append(("gen", "generator", "s", 100000, None))
     out.append(("chain", "outer-first", "s", 100000, "every7-after"))
+    # every link (or runs of consecutive links) fired while paused (pause(); callback(x)), then unpaused
+    # FRONT TO BACK: each link's callback returns a next link that has a plain result but is still paused
+    for kind in ("s", "f", "m"):
+        for n in sizes:
+            out.append(("chain", "outer-first", kind, n, "all-before-fwd"))
+        out.append(("chain", "inner-first", kind, sizes[0], "all-before-fwd"))
+        out.append(("chain", "outer-first", kind, sizes[-1], "runs0-before-fwd"))
+        out.append(("chain", "outer-first", kind, sizes[0], "every7-before-fwd"))
     out = [s + (None,) for s in out]
+    for kind in ("s", "f"):
+        for cls in ("trivial", "overriding", "dlist"):
+            out.append(("chain", "outer-first", kind, 2000 if q else 10000, "all-before-fwd", cls + "-all"))
     # Deferred-subclass links: every chain shape x {trivial, overriding, DeferredList/gatherResults} x
     # {all, every 3rd, random half}
     big = 10000 if q else 100000
@@ -412,13 +437,25 @@ def execute(ctx, sc, n):
     probe = Probe()
     if shape == "chain":
         paused = None
+        fwd = bool(pausespec) and pausespec.endswith("-fwd")
+        when = pausespec[:-4] if fwd else pausespec
         if pausespec and pausespec.startswith("every7"):
             paused = list(range(3, n - 1, 7))
+        elif pausespec and pausespec.startswith("all"):
+            paused = list(range(n))
+        elif pausespec and pausespec.startswith("runs"):
+            # runs of consecutive paused links (lengths 2..400) separated by unpaused stretches
+            rng = ctx.case_rng("pause", pausespec, n)
+            paused, i = [], rng.randrange(1, 20)
+            while i < n:
+                run = rng.choice((2, 5, 40, 400))
+                paused.extend(range(i, min(n, i + run)))
+                i += run + rng.randrange(1, 50)
         elif pausespec:
             rng = ctx.case_rng("pause", pausespec, n)
             paused = sorted(rng.sample(range(1, n - 1), max(1, n // rng.choice((3, 10, 50)))))
-        res = chain(n, variant, kind, probe, paused, bool(pausespec) and pausespec.endswith("after"),
-                    links, ctx.case_rng("links", links, n))
+        res = chain(n, variant, kind, probe, paused, bool(pausespec) and when.endswith("after"),
+                    links, ctx.case_rng("links", links, n), unpause_fwd=fwd)
     elif shape == "onedef":
         res = one_deferred_many_returns(n, variant, kind, probe, links)
     else:
@@ -452,6 +489,17 @@ def run_scenario(ctx, sc):
             ctx.violation("recursion-error", "RecursionError captured into the chain's result", dict(w, result=repr(out[0])[:300], max_depth=probe.max))
             return
         ctx.count("results_checked")
+        if not out:
+            # the outer end got nothing: was the result lost because a RecursionError was captured into a
+            # Failure that is stuck on some middle link?  (classification only; the verdict is `out`)
+            stuck = [i for i, d in enumerate(getattr(probe, "links", ()))
+                     if _recursion_in(getattr(d, "result", None))]
+            if stuck:
+                ctx.violation("recursion-error", "RecursionError captured into a Failure on a middle link of the chain; "
+                              "the outer end never got the result",
+                              dict(w, links_holding_recursion_error=stuck[:5], max_depth=probe.max,
+                                   probe_calls=probe.calls, expected_calls=calls))
+                return
         ok = len(out) == 1
         if ok:
             got = out[0]
@@ -481,6 +529,8 @@ def run_scenario(ctx, sc):
         ctx.count("subclass_link_scenarios")
     if sc[1].endswith("+late"):
         ctx.count("late_callback_scenarios")
+    if sc[4] and sc[4].endswith("-fwd"):
+        ctx.count("paused_fired_unpaused_forward_scenarios")
     ctx.sample({"scenario": list(sc), "depth_at_100": depths[BASE_N], "depth_at_N": depths[n]}, limit=6)
     if depths[n] - depths[BASE_N] > SLACK:
         ctx.violation("stack-grows-with-length", "frame depth inside user callbacks grows with the chain length",
